@@ -83,7 +83,11 @@ impl Display for ConstructorName<'_> {
 }
 
 impl ConstructorName<'_> {
-    pub fn type_name(&self) -> &str {
+    pub fn type_name(&self) -> /*@[*/(r: /*@]*/&str/*@[*/)/*@]*/
+        //@[ C17 ConstructorName::type_name: the nonterminal a rule belongs to
+        ensures r@ == cn_type_name(*self),
+        //@]
+    {
         match self {
             ConstructorName::Struct(name) => name,
             ConstructorName::EnumVariant { enum_name, .. } => enum_name,
